@@ -63,8 +63,8 @@ def run(ctx):
     thorough = ctx.tier == 'thorough'
     ctx.extra['rule'] = (
         "calls of LEFT/RIGHT/MID/REPLACE/FIND/SUBSTITUTE/TRIM/UPPER/LOWER/EXACT/LEN/CONCATENATE/"
-        "CONCAT/TEXT through function_helpers.apply_meta: every string up to length 4 (MID/REPLACE/"
-        "FIND/SUBSTITUTE quick tier: 3) over the 5-symbol alphabet 'a','B',' ','é','😀' x every n, k in "
+        "CONCAT/TEXT through function_helpers.apply_meta: every string up to length 4 (FIND/SUBSTITUTE "
+        "quick tier: 3, with every pattern up to length 2) over the 5-symbol alphabet 'a','B',' ','é','😀' x every n, k in "
         "-1..10, PRNG-sampled strings of length 5..8, and number/boolean/blank/error/numeric-text "
         "arguments in every parameter position; TEXT: numbers k/10^j and dyadics x formats of the "
         "grammar [#,##]0[.0#][%]; a case is non-trivial when it is a distinct (function, arguments) pair")
@@ -82,7 +82,7 @@ def run(ctx):
         for n in POS:
             calls.append(('left', (s, n)))
             calls.append(('right', (s, n)))
-    for s in SM + LONG[:ctx.n(40, 400)]:
+    for s in S4 + LONG[:ctx.n(40, 400)]:
         for n in POS:
             for k in POS:
                 calls.append(('mid', (s, n, k)))
